@@ -207,5 +207,10 @@ CLAIMS['C29'] = {
   'note': _TB + 'The bit level (CASBitStream/WAVBitStream pulse encodings, leader/sync detection) is replaced by a byte-tape stand-in and crc() is taken by contract: WAV/CAS encodings themselves are NOT verified. File lengths and write splits are case parameters.',
 }
 
+CLAIMS['C31'] = {
+  'text': 'LINE, LINE ,B, LINE ,BF and PSET/POINT clauses only (GET/PUT are NOT decided). Proof on the real Graphics._draw_line for ALL endpoint pairs on the screen by loop invariant (line_error = dX div 2 - i*dY + j*dX, 0 <= line_error < dX, discharged with nonlinear integer arithmetic): every iteration stores exactly one pixel at (X0 + sX*i, Y0 + sY*j) in the line attribute, the minor coordinate moves by at most one step (8-connected), the loop runs max(|dx|,|dy|)+1 times at distinct major coordinates, the first pixel is one endpoint and the invariant forces the last pixel onto the other; _draw_straight stores exactly the pixels of its edge (loop invariant), _draw_box issues exactly the four edges, _draw_box_filled stores exactly the rectangle, PSET stores exactly one pixel which POINT reads.',
+  'note': _TB + 'Unclipped screen (640x400 stand-in, no VIEW/WINDOW), solid pattern; the pixel buffer is a recording stand-in behind the viewport interface. GET/PUT round trips, XOR twice and the sprite builders are not under contract. Loop-invariant obligations are auxiliary: if a changed algorithm no longer satisfies the invariant the check reports undecided (exit 2) and relies on the BOUNDED native cross-check (300/5000 sampled endpoint pairs, never counted as proved) to show an actual violation.',
+}
+
 NOT_APPLICABLE = {
 }
